@@ -193,7 +193,8 @@ def wordScan : Nat → Nat → List Nat → Str → Bool
       else wordScan fuel 2 stack rest
     | 4 =>
       if c == '\\' then wordScan fuel 4 stack (rest.drop 1)
-      else if c == '\'' then wordScan fuel 1 (4 :: stack) rest
+      -- (inside a double-quoted context a single quote in the operand of ${…} is an ordinary character)
+      else if c == '\'' && !stack.contains 2 then wordScan fuel 1 (4 :: stack) rest
       else if c == '"' then wordScan fuel 2 (4 :: stack) rest
       else if c == '$' && rest.head? == some '{' then wordScan fuel 4 (4 :: stack) (rest.drop 1)
       else if c == '}' then wordScan fuel (stack.headD 0) stack.tail rest
@@ -274,7 +275,10 @@ def localTextViol (s : Str) (n : Node) : List Viol :=
     bad (n.pos.1 == 0 || (match s[n.pos.1 - 1]? with
         | some c => isBreakChar c ||
             -- a word may follow the '-' of `<<-`, `<&-`, `>&-` directly
-            (c == '-' && n.pos.1 ≥ 2 && (s[n.pos.1 - 2]? == some '<' || s[n.pos.1 - 2]? == some '&'))
+            -- (blanks may separate the operator from its '-': `>& -l` is `>&`, `-`, `l` for bash too)
+            (c == '-' && n.pos.1 ≥ 2 &&
+              (let before := ((s.take (n.pos.1 - 1)).reverse.dropWhile shellblank)
+               before.head? == some '<' || before.head? == some '&'))
         | none => false))
       "word-starts-late"
   | .parameter _ v =>
